@@ -1,6 +1,7 @@
 """C15 — coroutine SharedMutex: writers exclude all, readers share, nobody is forgotten (DESIGN.md §3 C15)."""
 from vlib import common as C
 from vlib import conc
+from vlib import memsearch
 
 RULES = ['rdFadd.fast', 'rdFadd.slow', 'spinOk', 'spinBusy', 'spinLoad.free', 'spinLoad.busy', 'rdUnlock.pass', 'rdUnlock.park',
          'enterR', 'enterW', 'exitR', 'exitW', 'rdFsub.free', 'rdFsub.pay', 'rwFsub.last', 'rwFsub.early', 'rwFsub.more',
@@ -30,7 +31,12 @@ def run(res, tier):
         search_args=[['--mode', 'dfs', '--pb', '3', '--wb', '1', '--max-exec', '60000'],
                      ['--mode', 'random', '--random-runs', '3000']],
         unmodelled_ok=STALE)
+    # an obligation broke and no schedule shows anything: search the memory-model side with the C04 machinery restricted
+    # to the shared mutex and its spinlock (vlib/memsearch.py)
+    memsearch.refine_no_input(res, 'C15', tier, ['include/yaclib/coro/shared_mutex.hpp', 'include/yaclib/util/detail/spinlock.hpp'],
+                              'cosharedmutex')
 
 
 def replay(path):
-    return conc.replay('C15', path)
+    r = memsearch.replay(path)
+    return conc.replay('C15', path) if r is None else r
